@@ -532,7 +532,7 @@ class RawAlgorithmsMixIn:
         # print 'xbar_data=',xbar_data
         # print 'ybar_data=',ybar_data
 
-        if type(r) == int:
+        if type(r) == int and r >= 0:
 
             if r > 0:
 
